@@ -79,6 +79,15 @@ def ensure_built(profile='dev'):
             cmd.insert(2, '--release')
         t = time.time()
         r = subprocess.run(cmd, cwd=src, env=env, stdout=subprocess.PIPE, stderr=subprocess.PIPE, text=True)
+        if r.returncode != 0:
+            # the tree under test may have changed a data representation that some probes spell out (e.g. the cancel map's key):
+            # retry with those parts of the probes compiled out; the representation-independent operations remain
+            env2 = dict(env)
+            env2['RUSTFLAGS'] = '--cfg verif_probe_minimal'
+            r2 = subprocess.run(cmd, cwd=src, env=env2, stdout=subprocess.PIPE, stderr=subprocess.PIPE, text=True)
+            if r2.returncode == 0:
+                sys.stderr.write('native oracle: built in MINIMAL mode (the full probe set does not compile against this tree)\n')
+                r = r2
         exe = None
         errs = []
         for line in r.stdout.split('\n'):
